@@ -395,6 +395,22 @@ func cmdCheck(args []string) int {
 				fmt.Println("  solver error:", se)
 			}
 		}
+		if *verbose {
+			type kv struct {
+				k string
+				v int
+			}
+			var l []kv
+			for k, v := range rep.ForkSites {
+				l = append(l, kv{k, v})
+			}
+			sort.Slice(l, func(i, j int) bool { return l[i].v > l[j].v })
+			for i, x := range l {
+				if i < 8 {
+					fmt.Printf("  forks %6d at %s\n", x.v, x.k)
+				}
+			}
+		}
 		if *verbose || len(r.incon) > 0 {
 			for _, s := range r.incon {
 				fmt.Println("  inconclusive:", s)
@@ -590,6 +606,8 @@ func replayOne(v *violation, prop string, h HarnessPlan, params map[string]int, 
 	switch {
 	case strings.Contains(txt, "ZZ-ASSUME-FAILED"):
 		v.ReplayStatus = "native run violated a harness assumption"
+	case strings.Contains(txt, "ZZ-HANG") && !strings.Contains(txt, "ZZ-ASSERT-FAILED") && v.Finding.Kind != "unwind" && v.Finding.Kind != "blocked" && v.Finding.Kind != "recursion":
+		v.ReplayStatus = "native run hung (harness did not finish within 60 s) without failing the assertion"
 	case failRe.MatchString(txt) && err != nil:
 		v.Reproduced = true
 		v.ReplayStatus = "reproduced natively: " + firstMatchLine(txt)
